@@ -151,7 +151,9 @@ impl<'a> ExpressionEvaluator<'a> {
                 }])
             }
             BoundExpression::Exists { query, negated } => {
-                todo!("Subquery evaluation is not yet implemented")
+Err(EvaluationError::InvalidExpression(
+                    "subquery evaluation is not supported".to_string(),
+                ))
             }
             BoundExpression::InList {
                 expr,
@@ -188,14 +190,18 @@ impl<'a> ExpressionEvaluator<'a> {
                 }])
             }
             BoundExpression::Subquery { query, result_type } => {
-                todo!("Subquery evaluation is not yet implemented")
+Err(EvaluationError::InvalidExpression(
+                    "subquery evaluation is not supported".to_string(),
+                ))
             }
             BoundExpression::InSubquery {
                 expr,
                 query,
                 negated,
             } => {
-                todo!("Subquery evaluation is not yet implemented")
+Err(EvaluationError::InvalidExpression(
+                    "subquery evaluation is not supported".to_string(),
+                ))
             }
             BoundExpression::Function {
                 func,
@@ -289,7 +295,10 @@ impl<'a> ExpressionEvaluator<'a> {
                     }
                 }
             }
-            _ => unreachable!("Should not reach here when calling the evaluator"),
+            other => Err(EvaluationError::InvalidExpression(format!(
+                "expression is not supported in this position: {:?}",
+                std::mem::discriminant(other)
+            ))),
         }
     }
 
@@ -318,6 +327,62 @@ impl<'a> ExpressionEvaluator<'a> {
         }
 
         Ok(self.row[idx].clone())
+    }
+
+    /// Integer arithmetic that divides by zero or leaves the range of its result type is reported as an
+    /// error: the operators on the value types themselves are unchecked and would abort the worker.
+    fn check_integer_arithmetic(
+        op: BinaryOperator,
+        left: &DataType,
+        right: &DataType,
+    ) -> EvaluationResult<()> {
+        fn exact(d: &DataType) -> Option<i128> {
+            match d {
+                DataType::Int(v) => Some(v.0 as i128),
+                DataType::BigInt(v) => Some(v.0 as i128),
+                DataType::UInt(v) => Some(v.0 as i128),
+                DataType::BigUInt(v) => Some(v.0 as i128),
+                _ => None,
+            }
+        }
+        let (Some(a), Some(b)) = (exact(left), exact(right)) else {
+            return Ok(());
+        };
+        let result = match op {
+            BinaryOperator::Plus => a.checked_add(b),
+            BinaryOperator::Minus => a.checked_sub(b),
+            BinaryOperator::Multiply => a.checked_mul(b),
+            BinaryOperator::Divide | BinaryOperator::Modulo if b == 0 => {
+                return Err(EvaluationError::InvalidExpression(
+                    "division by zero".to_string(),
+                ));
+            }
+            BinaryOperator::Divide => a.checked_div(b),
+            BinaryOperator::Modulo => a.checked_rem(b),
+            _ => return Ok(()),
+        };
+        // The kind the operation yields for these operand kinds: run it once on harmless values.
+        let one = DataType::Int(1.into());
+        let probe = match (one.try_cast(left.kind()), one.try_cast(right.kind())) {
+            (Ok(l), Ok(r)) => l.mul(&r).ok(),
+            _ => None,
+        };
+        let range = match probe.map(|p| p.kind()) {
+            Some(DataTypeKind::Int) => Some((i32::MIN as i128, i32::MAX as i128)),
+            Some(DataTypeKind::BigInt) => Some((i64::MIN as i128, i64::MAX as i128)),
+            Some(DataTypeKind::UInt) => Some((0, u32::MAX as i128)),
+            Some(DataTypeKind::BigUInt) => Some((0, u64::MAX as i128)),
+            _ => None,
+        };
+        match (result, range) {
+            (Some(v), Some((lo, hi))) if v < lo || v > hi => Err(
+                EvaluationError::InvalidExpression("integer out of range".to_string()),
+            ),
+            (None, _) => Err(EvaluationError::InvalidExpression(
+                "integer out of range".to_string(),
+            )),
+            _ => Ok(()),
+        }
     }
 
     fn logical_and(left: &DataType, right: &DataType) -> TypeSystemResult<DataType> {
@@ -465,18 +530,23 @@ impl<'a> ExpressionEvaluator<'a> {
 
                 // Arithmetic operators use promoted operations (see the type system module for details)
                 BinaryOperator::Plus => {
+                    Self::check_integer_arithmetic(bin_op, &left[0], &right[0])?;
                     Ok(vec![left[0].add(&right[0]).map_err(EvaluationError::from)?])
                 }
                 BinaryOperator::Minus => {
+                    Self::check_integer_arithmetic(bin_op, &left[0], &right[0])?;
                     Ok(vec![left[0].sub(&right[0]).map_err(EvaluationError::from)?])
                 }
                 BinaryOperator::Multiply => {
+                    Self::check_integer_arithmetic(bin_op, &left[0], &right[0])?;
                     Ok(vec![left[0].mul(&right[0]).map_err(EvaluationError::from)?])
                 }
                 BinaryOperator::Divide => {
+                    Self::check_integer_arithmetic(bin_op, &left[0], &right[0])?;
                     Ok(vec![left[0].div(&right[0]).map_err(EvaluationError::from)?])
                 }
                 BinaryOperator::Modulo => {
+                    Self::check_integer_arithmetic(bin_op, &left[0], &right[0])?;
                     Ok(vec![left[0].rem(&right[0]).map_err(EvaluationError::from)?])
                 }
 
